@@ -477,6 +477,140 @@ def gen_readnames(d_read, d_handler, d_prov):
     return out
 
 
+class TrM(Tr):
+    """adds: getter calls mapped to parameters (GetModel().num_vars() -> nv ...), int -> bool conversions"""
+    GET = {'WantNames': 'mode', 'num_vars': 'nv', 'num_common_exprs': 'ndv', 'num_cons': 'ncon', 'num_algebraic_cons': 'nalg',
+           'num_objs': 'nobj', 'objno_used': 'objno'}
+
+    def getter(self, n):
+        n = strip(n)
+        if n.get('kind') == 'CXXMemberCallExpr' and len(n.get('inner', [])) == 1:
+            nm = self.callee(n)
+            if nm in self.GET:
+                return self.GET[nm]
+            if nm == 'multiobj':
+                return 'multi'
+            if nm == 'number_read':
+                obj = strip(strip(n['inner'][0])['inner'][0])
+                if obj.get('kind') == 'DeclRefExpr':
+                    return {'npv': 'nrv', 'npc': 'nrc', 'npco': 'nread'}.get(obj['referencedDecl']['name'])
+        return None
+
+    def nat(self, n, env):
+        g = self.getter(n)
+        if g is not None and g != 'multi':
+            return g
+        return Tr.nat(self, n, env)
+
+    def bool(self, n, env):
+        m = n
+        while m.get('kind') in SKIP and len(m.get('inner', [])) == 1:
+            m = m['inner'][0]
+        if m.get('kind') == 'ImplicitCastExpr' and m.get('castKind') == 'IntegralToBoolean':
+            return '(%s != 0)' % self.nat(m['inner'][0], env)
+        if self.getter(n) == 'multi':
+            return 'multi'
+        return Tr.bool(self, n, env)
+
+
+def gen_modes(docs):
+    """`ModelManagerWithProblemBuilder::ReadNames` and `SetObjNames` (include/mp/model-mgr-with-pb.h): conditions, arguments
+    and strings are translated; the sequence of calls is matched statement by statement"""
+    out = []
+    tr = TrM(docs, {'locals': {'num_c': 'nat', 'o1': 'nat', 'o2': 'nat', 'io': 'nat'}})
+    fn = find_method(docs, 'ModelManagerWithProblemBuilder', 'ReadNames')
+    b = _only(body_of(fn))
+    if len(b) != 1 or b[0].get('kind') != 'IfStmt' or len(b[0]['inner']) != 2:
+        raise TranslateError('mgr ReadNames: expected a single `if (WantNames())`')
+    wanted = tr.bool(b[0]['inner'][0], Env())
+    st = _only(b[0]['inner'][1].get('inner', []))
+    if len(st) != 4 or [x.get('kind') for x in st] != ['DeclStmt', 'DeclStmt', 'IfStmt', 'IfStmt']:
+        raise TranslateError('mgr ReadNames: body changed shape')
+    stubs = {}
+    for d in st[:2]:
+        v = d['inner'][0]
+        lits = []
+
+        def lw(n):
+            if n.get('kind') == 'StringLiteral':
+                lits.append(json.loads(n['value']))
+            for c in n.get('inner', []):
+                lw(c)
+        lw(v)
+        if len(lits) != 2:
+            raise TranslateError('NameProvider %s is not constructed from two string literals' % v.get('name'))
+        stubs[v['name']] = lits
+    if sorted(stubs) != ['npc', 'npv']:
+        raise TranslateError('mgr ReadNames: providers are %r' % sorted(stubs))
+    readc = tr.bool(st[2]['inner'][0], Env())
+    rd = _only(st[2]['inner'][1].get('inner', []))
+    exts = []
+    for x in rd:
+        e = strip(x)
+        if _call_name(e) != 'ReadNames':
+            raise TranslateError('mgr ReadNames: reading branch calls %r' % _call_name(e))
+        obj = strip(strip(e['inner'][0])['inner'][0])['referencedDecl']['name']
+        lits = re.findall(r'"value": "\\"(\.[a-z]+)\\""', json.dumps(e))
+        if len(lits) != 1:
+            raise TranslateError('mgr ReadNames: file extension literal not found')
+        exts.append((obj, lits[0]))
+    if exts != [('npv', '.col'), ('npc', '.row')]:
+        raise TranslateError('mgr ReadNames: files read are %r' % exts)
+    setc = tr.bool(st[3]['inner'][0], Env())
+    ss = [strip(x) for x in _only(st[3]['inner'][1].get('inner', []))]
+    if [_call_name(x) for x in ss] != ['SetVarNames', 'SetConNames', 'SetObjNames']:
+        raise TranslateError('mgr ReadNames: setting branch calls %r' % [_call_name(x) for x in ss])
+    args = []
+    for x, prov in ((ss[0], 'npv'), (ss[1], 'npc')):
+        g = strip(x['inner'][1])
+        if _call_name(g) != 'get_names' or strip(strip(g['inner'][0])['inner'][0])['referencedDecl']['name'] != prov:
+            raise TranslateError('mgr ReadNames: names are not taken from %s.get_names' % prov)
+        args.append((tr.nat(g['inner'][1], Env()), tr.nat(g['inner'][2], Env())))
+    if strip(ss[2]['inner'][1])['referencedDecl']['name'] != 'npc':
+        raise TranslateError('mgr ReadNames: SetObjNames is not called with npc')
+    out.append('/-- `if (WantNames())` -/\ndef namesWanted (mode : Nat) : Bool :=\n  %s\n' % wanted)
+    out.append('/-- `if (WantNames()<=2)`: read `<stub>.col` into the variable name provider and `<stub>.row` into the constraint one -/\n'
+               'def readFiles (mode : Nat) : Bool :=\n  %s\n' % readc)
+    out.append('/-- the condition under which names are given to the problem at all -/\ndef setNames (mode nrv nrc : Nat) : Bool :=\n  %s\n' % setc)
+    out.append('/-- arguments of `npv.get_names(n, i2)` / `npc.get_names(n, i2)` -/\n'
+               'def varNamesArgs (nv ndv : Nat) : Nat × Nat := (%s, %s)\ndef conNamesArgs (ncon nalg : Nat) : Nat × Nat := (%s, %s)\n' % (args[0] + args[1]))
+    out.append('/-- generic-name stubs of the two providers -/\n'
+               'def stubVar : List Char := %s\ndef stubDefVar : List Char := %s\ndef stubCon : List Char := %s\ndef stubLogCon : List Char := %s\n'
+               % tuple(lean_chars(x) for x in stubs['npv'] + stubs['npc']))
+    # ---- SetObjNames
+    fn = find_method(docs, 'ModelManagerWithProblemBuilder', 'SetObjNames')
+    b = _only(body_of(fn))
+    if len(b) != 1 or b[0].get('kind') != 'IfStmt' or len(b[0]['inner']) != 2:
+        raise TranslateError('SetObjNames: expected a single `if (num_objs())`')
+    guard = tr.bool(b[0]['inner'][0], Env())
+    st = _only(b[0]['inner'][1].get('inner', []))
+    kinds = [x.get('kind') for x in st]
+    if kinds[:4] != ['DeclStmt', 'DeclStmt', 'DeclStmt', 'IfStmt'] or kinds[4:6] != ['DeclStmt', 'ForStmt'] or len(st) != 7 or _call_name(st[6]) != 'SetObjNames':
+        raise TranslateError('SetObjNames: body changed shape %r' % kinds)
+    loop = st[5]
+    init, _, cond, inc, body = (loop['inner'] + [None] * 5)[:5]
+    iv = init['inner'][0]
+    c, i = strip(cond), strip(inc)
+    if not (iv.get('name') == 'io' and c.get('opcode') == '<' and tr.key(c['inner'][0]) == 'io' and i.get('opcode') == '++' and tr.key(i['inner'][0]) == 'io'):
+        raise TranslateError('SetObjNames: loop header changed')
+    rng = tr.block(st[:4], Env(), None, lambda e: '(%s, %s)' % (tr.nat(iv['inner'][0], e), tr.nat(c['inner'][1], e)))
+    lb = _only(body.get('inner', []))
+    if len(lb) != 1 or lb[0].get('kind') != 'IfStmt' or len(lb[0]['inner']) != 3:
+        raise TranslateError('SetObjNames: loop body is not if/else')
+    env = Env({'io': 'io', 'num_c': 'ncon'})
+    fromfile = tr.bool(lb[0]['inner'][0], env)
+    t, f = strip(lb[0]['inner'][1]), strip(lb[0]['inner'][2])
+    if _call_name(t) != 'push_back' or _call_name(f) != 'push_back' or '"name": "name"' not in json.dumps(t):
+        raise TranslateError('SetObjNames: branches are not push_back(npco.name(io)) / push_back(generic)')
+    generic = tr.str(f['inner'][1], env)
+    out.append('/-- `SetObjNames`: `if (num_objs())` -/\ndef objGuard (nobj : Nat) : Bool :=\n  %s\n' % guard)
+    out.append('/-- `SetObjNames`: bounds `[lo, hi)` of the loop over indexes into the row names (constraints first, then objectives) -/\n'
+               'def objRange (ncon nobj objno : Nat) (multi : Bool) : Nat × Nat :=\n  %s\n' % rng)
+    out.append('/-- `SetObjNames`: take the name from the `.row` file? -/\ndef objFromFile (nread io : Nat) : Bool :=\n  %s\n' % fromfile)
+    out.append('/-- `SetObjNames`: generic objective name otherwise -/\ndef objGeneric (io ncon : Nat) : List Char :=\n  %s\n' % generic)
+    return out
+
+
 def gen_itemname(docs):
     tr = Tr(docs, {'locals': {'l': 'nat', 'fbr': 'bool'}})
     fn = find_method(docs, 'BasicProblem', 'item_name')
@@ -821,6 +955,8 @@ def main(repo, out, work):
     d2d = clang_dump(os.path.join(work, 'c19_tu2.cc'), 'internal::NameHandler', inc)
     d2e = clang_dump(os.path.join(work, 'c19_tu2.cc'), 'mp::NameProvider::ReadNames', inc)
     parts += gen_readnames(d2c, d2d, d2e)
+    open(os.path.join(work, 'c19_tu6.cc'), 'w').write('#define NDEBUG 1\n#define MP_DATE 20240320\n#include "mp/model-mgr-with-std-pb.hpp"\n')
+    parts += gen_modes(clang_dump(os.path.join(work, 'c19_tu6.cc'), 'mp::ModelManagerWithProblemBuilder', inc))
     parts += gen_slack(d3)
     d5 = clang_dump(os.path.join(work, 'c19_tu4.cc'), 'mp::pre::AutoLinkScope', inc)
     d6 = clang_dump(os.path.join(work, 'c19_tu5.cc'), 'mp::FlatConverter::AutoLink', inc)
